@@ -219,6 +219,7 @@ def run(ctx):
         hd.differential(ctx, cases, "gzip", release=True)
     known = hd.known_kinds_for("C05")
     fails = hd.apply_oracle(ctx, cases, impl, oracle, known)
+    hd.cli_pass(ctx, cases, impl, "gzip", "gz")
     ctx.coverage.update({
         "evaluations": len(cases),
         "distinct_nontrivial": hd.distinct_nontrivial(cases, impl),
